@@ -125,7 +125,7 @@ def generate():
     shape = text_of(ft, b[0], b[1] + 1)
     k = shape.find("if self . is_compressed ( )")
     need(k >= 0, "get_indent: compressed test not found")
-    shape_ok = shape[k:] == 'if self . is_compressed ( ) { "" } else { & INDENT [ ..= len ] } }'
+    shape_ok = shape[k:] == 'if self . is_compressed ( ) { "" } else { & INDENT [ ..= len . min ( INDENT . len ( ) - 1 ) ] } }'
     body += "(* Format::get_indent: byte length of the static INDENT string, whether it is newline + spaces,\n   and whether the body still is `if compressed {\"\"} else {&INDENT[..=len]}` *)\n"
     body += f"Definition indent_static_len : N := {len(indent.encode())}%N.\n"
     body += f"Definition indent_is_nl_spaces : bool := {'true' if indent[:1] == chr(10) and set(indent[1:]) <= {' '} else 'false'}.\n"
